@@ -68,8 +68,8 @@ Annotate(ps, off) ==
     IF off < 0 THEN ps
     ELSE [i \in DOMAIN ps |-> [ps[i] EXCEPT !.a = Cycle[((i + off) % Len(Cycle)) + 1]]]
 Offsets == IF Big THEN {-1, 0, 1, 2, 3, 4, 5, 6, 7, 8, 9} ELSE {-1, 0, 5}
-Rets == IF Big THEN {"noret", "int", "none", "listint", "class", "fwd", "ctype", "union604"}
-        ELSE {"noret", "listint"}
+Rets == IF Big THEN {"noret", "int", "none", "listint", "class", "fwd", "ctype", "union604", "tupleann"}
+        ELSE {"noret", "listint", "tupleann"}
 
 GridSigs == {s \in {Sig(Annotate(sh, off), r) : sh \in Shapes, off \in Offsets, r \in Rets} : SigWF(s)}
 
